@@ -270,6 +270,17 @@ class Vocab:
             self._compute_maycb()
         return self._maycb.get(path, False)
 
+    def is_destructor_site(self, body, i):
+        """the callback at block i can only run destructors (Drop terminator, drop_in_place, Bucket::drop, drop_elements...)"""
+        t = body.term(i)
+        if t["k"] == "drop":
+            return True
+        if t["k"] == "call":
+            cp = (t["f"].get("resolved") or t["f"].get("path") or "") if t["f"]["k"] == "fn" else ""
+            if cp in EXT_CB_FNS[:3] or cp.endswith("::drop_elements") or cp.endswith("Bucket::drop") or cp.endswith("::drop_inner_table") or cp.endswith("as Drop>::drop"):
+                return True
+        return False
+
     def callback_sites(self, body):
         """list of (block, description) of normal-flow terminators in `body`
         that may run user code (directly or through crate callees)."""
